@@ -120,7 +120,7 @@ func H_AllDelivered_Multi() {
 	inbox := inboxOf(all, "a")
 	href, _ := NewMultiHandler(stubStart(cfg, "a", stubIDs), sid)
 	for _, m := range inbox {
-		href.Accept(m)
+		acceptDrain(href, m)
 	}
 	want, err := href.Result()
 	vsym.Assert(err == nil, "in-order run completes")
@@ -129,18 +129,18 @@ func H_AllDelivered_Multi() {
 	switch mode {
 	case 0: // full reverse
 		for i := len(inbox) - 1; i >= 0; i-- {
-			h.Accept(inbox[i])
+			acceptDrain(h, inbox[i])
 		}
 	case 1: // every message twice, reverse
 		for i := len(inbox) - 1; i >= 0; i-- {
-			h.Accept(inbox[i])
-			h.Accept(inbox[i])
+			acceptDrain(h, inbox[i])
+			acceptDrain(h, inbox[i])
 		}
 	case 2: // p2p of every round before broadcasts, rounds descending
 		for pass := 0; pass < 2; pass++ {
 			for i := len(inbox) - 1; i >= 0; i-- {
 				if inbox[i].Broadcast == (pass == 1) {
-					h.Accept(inbox[i])
+					acceptDrain(h, inbox[i])
 				}
 			}
 		}
@@ -197,7 +197,7 @@ func H_Filter_Multi() {
 		h, err := NewMultiHandler(stubStart(cfg, "a", stubIDs), sid)
 		vsym.Assume(err == nil)
 		for i := 0; i < k; i++ {
-			h.Accept(inbox[i])
+			acceptDrain(h, inbox[i])
 		}
 		return h
 	}
@@ -220,7 +220,7 @@ func H_Filter_Multi() {
 	}
 	before := observe(h)
 	h2 := mk()
-	h2.Accept(mu)
+	acceptDrain(h2, mu)
 	after := observe(h2)
 	vsym.Assert(vsym.Implies(vsym.Or(foreign, stale), vsym.Same(before, after)), "foreign or stale message changes nothing")
 	vsym.Reach("filter-compared")
@@ -240,7 +240,7 @@ func H_Duplicate_Multi() {
 		h, err := NewMultiHandler(stubStart(cfg, "a", stubIDs), sid)
 		vsym.Assume(err == nil)
 		for i := 0; i < k; i++ {
-			h.Accept(inbox[i])
+			acceptDrain(h, inbox[i])
 		}
 		return h
 	}
@@ -253,7 +253,7 @@ func H_Duplicate_Multi() {
 	}
 	h1 := mk()
 	h2 := mk()
-	h2.Accept(&dup)
+	acceptDrain(h2, &dup)
 	vsym.Assert(vsym.Same(observe(h1), observe(h2)), "duplicate delivery changes nothing")
 	vsym.Reach("duplicate-compared")
 }
